@@ -520,4 +520,46 @@ def rule_topo(ctx):
                         "orders used for the peak and for execution are valid execution orders", lambda i: True, 5)
 
 
-RULES = [rule_topo, rule_validate, rule_arith, rule_prov, rule_mult, rule_leafcount, rule_multpair, rule_exec, rule_peak, rule_intsize, rule_maxcount, rule_totals_state, rule_intcost]
+def _shared_rules():
+    """The reported totals are the tree's running totals: they equal the definition only if the incremental bookkeeping of C04 is right."""
+    out = []
+
+    def _mk(src_mod="c04", fn="rule_track", old="C04-TRACK", new="C03-TRACK", mn=12):
+        def rule(ctx):
+            import importlib
+            srcf = getattr(importlib.import_module("sa.rules." + src_mod), fn)
+            return C.reuse_rule(ctx, srcf, old, new, "shared clause of " + old + " (also a necessary condition here)", lambda i: True, mn)
+        rule.__name__ = "shared_" + new.lower().replace("-", "_")
+        return rule
+    out.append(_mk())
+
+    def _mk(src_mod="c04", fn="rule_staleread", old="C04-STALEREAD", new="C03-STALEREAD", mn=2):
+        def rule(ctx):
+            import importlib
+            srcf = getattr(importlib.import_module("sa.rules." + src_mod), fn)
+            return C.reuse_rule(ctx, srcf, old, new, "shared clause of " + old + " (also a necessary condition here)", lambda i: True, mn)
+        rule.__name__ = "shared_" + new.lower().replace("-", "_")
+        return rule
+    out.append(_mk())
+
+    def _mk(src_mod="c04", fn="rule_whole", old="C04-WHOLE", new="C03-WHOLE", mn=1):
+        def rule(ctx):
+            import importlib
+            srcf = getattr(importlib.import_module("sa.rules." + src_mod), fn)
+            return C.reuse_rule(ctx, srcf, old, new, "shared clause of " + old + " (also a necessary condition here)", lambda i: True, mn)
+        rule.__name__ = "shared_" + new.lower().replace("-", "_")
+        return rule
+    out.append(_mk())
+
+    def _mk(src_mod="c04", fn="rule_leaf", old="C04-LEAF", new="C03-LEAF", mn=1):
+        def rule(ctx):
+            import importlib
+            srcf = getattr(importlib.import_module("sa.rules." + src_mod), fn)
+            return C.reuse_rule(ctx, srcf, old, new, "shared clause of " + old + " (also a necessary condition here)", lambda i: True, mn)
+        rule.__name__ = "shared_" + new.lower().replace("-", "_")
+        return rule
+    out.append(_mk())
+    return out
+
+
+RULES = [rule_topo, rule_validate, rule_arith, rule_prov, rule_mult, rule_leafcount, rule_multpair, rule_exec, rule_peak, rule_intsize, rule_maxcount, rule_totals_state, rule_intcost] + _shared_rules()
